@@ -223,7 +223,41 @@ def _flight_ivc(om, vals):
     return ivc
 
 
+def _register_user_arrays_before_setup(prob):
+    """Hash every array reachable from the surface dicts handed to OAS groups as options - *before*
+    prob.setup() runs any OAS setup() - so that an in-place edit during set-up is seen."""
+    if _EARLY is None:
+        return
+    seen = set(id(a) for _l, a, _d in _EARLY)
+
+    def walk(label, o, depth=0):
+        if isinstance(o, np.ndarray):
+            if id(o) not in seen:
+                seen.add(id(o))
+                _early(label, o)
+        elif isinstance(o, dict) and depth < 4:
+            for k in sorted(o, key=str):
+                walk(label + "/" + str(k), o[k], depth + 1)
+        elif isinstance(o, (list, tuple)) and depth < 4:
+            for i, x in enumerate(o):
+                walk(label + "/%d" % i, x, depth + 1)
+
+    def systems(g):
+        yield g
+        for sub in getattr(g, "_static_subsystems_allprocs", {}).values():
+            yield from systems(sub.system)
+
+    for sysm in systems(prob.model):
+        for key in ("surface", "surfaces"):
+            try:
+                val = sysm.options[key]
+            except Exception:
+                continue
+            walk("surface", val)
+
+
 def _setup(prob, spec, driver=None):
+    _register_user_arrays_before_setup(prob)
     if spec.get("driver") and driver:
         import openmdao.api as om
 
@@ -424,8 +458,11 @@ def z4(spec):
     nx, ny = spec.get("nx", 2), spec.get("ny", 5)
     md, mesh, twist_cp = _gen_mesh("CRM", nx, ny, True, num_twist_cp=3)
     s = _aero_surface("wing", mesh, True, twist_cp, viscous=True, wave=True, t_over_c_cp=np.array([0.12]))
-    prob, pn = _aero_problem(spec, [s], FLIGHT_CRUISE, compressible=True)
+    flight4 = dict(FLIGHT_CRUISE)
+    flight4["beta"] = (0.0, "deg")
+    prob, pn = _aero_problem(spec, [s], flight4, compressible=True)
     inputs = _flight_inputs(mach=(0.3, 0.8)) + [
+        Inp("beta", 0.0, "uni", -4.0, 4.0, special=[0.0]),
         Inp("wing.twist_cp", twist_cp, "abs", -2.0, 2.0),
         Inp("wing.t_over_c_cp", np.array([0.12]), "rel", -0.2, 0.2),
     ]
@@ -974,6 +1011,8 @@ def z11(spec):
     ]
     if ground:
         inputs.append(Inp("height_agl", 30.0, "uni", 10.0, 200.0, special=[8000.0]))
+    if comp:
+        inputs.append(Inp("beta", 0.0, "uni", -4.0, 4.0, special=[0.0]))
     pn = "AS_point_0"
     of = [pn + ".fuelburn", pn + ".L_equals_W", pn + ".wing_perf.failure", pn + ".CM", pn + ".total_perf.moment.M", pn + ".CL", pn + ".CD"]
     return Model(spec, prob, inputs, of, [i.name for i in inputs], [s, md], coupled=coupled)
@@ -1341,6 +1380,7 @@ SURF_OPT_CHOICES = [
     {"c_max_t": 0.4},
     {"CL0": 0.1, "CD0": 0.02},
     {"S_ref_type": "projected", "k_lam": 0.15},
+    {"k_lam": 0.0},  # fully turbulent: admissible, and the laminar/transition terms must drop out cleanly
 ]
 
 
